@@ -69,7 +69,7 @@ def run(ck):
 
 
 def verdict(ck):
-    ck.floor('interleavings', ck.counters['interleavings'], 1500 if not ck.thorough() else 5000)
+    ck.floor('interleavings', ck.counters['interleavings'], 1200 if not ck.thorough() else 5000)
     ck.floor('ordered trigger pairs', ck.counters['pairs_explored'], 144)
     ck.floor('distinct (state, request kind) combinations', len(ck.sets['col.state_x_request']), 25)
     ck.floor('quiescence checks', ck.counters['col.quiescence_checks'], 2000)
